@@ -3,6 +3,12 @@ TECH_A = "symbolic execution of the real nifty.cl code on object arrays of z3 re
 NOTE_A = ("Exact real arithmetic (no IEEE effects); bounds on sizes/depths as listed in the evidence file; stubs listed in "
           "evidence.coverage.stubs; trusted: z3 4.8.12/5.1, NumPy object-array dispatch, the harness oracle.")
 
+TECH_B = ("symbolic interpretation of the jax.make_jaxpr IR of the real nifty.re functions over z3 reals (JAX itself applies AD / "
+          "linear_transpose; data movement by index tracing through JAX) + SMT (z3 NRA) refutation of each negated obligation, "
+          "counterexamples replayed on the real function in float64")
+NOTE_B = ("Exact real arithmetic (no IEEE effects); shapes as listed in the evidence; exp/log/... uninterpreted with axiom instances; "
+          "trusted: z3, JAX tracing, the jaxpr interpreter (validated against the real functions on float inputs), the harness oracle.")
+
 CHECKS = [
     {"property_id": "C01", "engine": "A", "category": "other", "technique": TECH_A, "note": NOTE_A,
      "text": "Bounded symbolic verification: for every enumerated operator expression tree (depth <= 2 over a leaf library, "
@@ -97,6 +103,13 @@ CHECKS = [
              "refutes value, gradient and metric differing from the explicit sample average of the Hamiltonian (non-constant "
              "block); constants are absent from the position and untouched by at(), at() keeps the residuals.",
      "design_ref": "DESIGN.md 4/C19"},
+    {"property_id": "C12", "engine": "B", "category": "other", "technique": TECH_B, "note": NOTE_B + " Known finding: Categorical declares the label shape as lsm_tangents_shape.",
+     "text": "Bounded symbolic verification on the compiler IR: for Gaussian (3 noise configurations), StudentT, Poissonian, "
+             "VariableCovarianceGaussian, VariableCovarianceStudentT and Categorical, each constructed inside the trace from symbolic "
+             "data / noise / degrees of freedom, z3 refutes for ALL primals, tangents and cotangents: metric != L(R(t)), <R t,c> != "
+             "<t,L c>, metric != closed-form Fisher information, energy != documented -log pdf, L != vjp(transformation), J^T J != "
+             "metric; the same through amend (affine, exp models), LikelihoodSum and freeze. Shapes (1,), (2,), (2,2).",
+     "design_ref": "DESIGN.md 4/C12"},
 ]
 
 ALL = [f"C{i:02d}" for i in range(1, 37)]
